@@ -1,4 +1,4 @@
-package c06
+package gen
 
 // Packed-run faults: a descriptor-aware source that puts one hostile element into the packed
 // encoding of a repeated scalar field (at the top level or below a chain of message fields). The
@@ -10,17 +10,17 @@ import (
 	"pgregory.net/rapid"
 )
 
-type packedTarget struct {
+type packedFaultTarget struct {
 	path []protoreflect.FieldDescriptor // singular message fields leading to the owner
 	fd   protoreflect.FieldDescriptor
 }
 
-func packedTargets(md protoreflect.MessageDescriptor, depth int, path []protoreflect.FieldDescriptor, seen map[protoreflect.FullName]bool, out *[]packedTarget) {
-	if seen[md.FullName()] || len(*out) > 200 {
+func packedFaultTargets(md protoreflect.MessageDescriptor, depth int, path []protoreflect.FieldDescriptor, seen map[protoreflect.FullName]bool, out *[]packedFaultTarget) {
+	// recursive types are entered again (bounded by depth): the packed fields of a corecursive
+	// message below a lazy field are exactly the interesting targets
+	if len(*out) > 2000 {
 		return
 	}
-	seen[md.FullName()] = true
-	defer delete(seen, md.FullName())
 	fs := md.Fields()
 	for i := 0; i < fs.Len(); i++ {
 		fd := fs.Get(i)
@@ -28,22 +28,31 @@ func packedTargets(md protoreflect.MessageDescriptor, depth int, path []protoref
 			switch fd.Kind() {
 			case protoreflect.StringKind, protoreflect.BytesKind, protoreflect.MessageKind, protoreflect.GroupKind:
 			default:
-				*out = append(*out, packedTarget{append([]protoreflect.FieldDescriptor(nil), path...), fd})
+				*out = append(*out, packedFaultTarget{append([]protoreflect.FieldDescriptor(nil), path...), fd})
 			}
 		}
 		if depth > 0 && fd.Kind() == protoreflect.MessageKind && !fd.IsList() && !fd.IsMap() {
-			packedTargets(fd.Message(), depth-1, append(path, fd), seen, out)
+			packedFaultTargets(fd.Message(), depth-1, append(path, fd), seen, out)
 		}
 	}
 }
 
-// packedFault returns an input whose only content is one packed run with a drawn (possibly
+// PackedFault returns an input whose only content is one packed run with a drawn (possibly
 // harmless) fault, and ok=false when the type has no packable field within reach.
-func packedFault(t *rapid.T, md protoreflect.MessageDescriptor) ([]byte, string, bool) {
-	var ts []packedTarget
-	packedTargets(md, 3, nil, map[protoreflect.FullName]bool{}, &ts)
+func PackedFault(t *rapid.T, md protoreflect.MessageDescriptor) ([]byte, string, bool) {
+	var ts []packedFaultTarget
+	packedFaultTargets(md, 3, nil, map[protoreflect.FullName]bool{}, &ts)
 	if len(ts) == 0 {
 		return nil, "", false
+	}
+	var nested []packedFaultTarget
+	for _, x := range ts {
+		if len(x.path) > 0 {
+			nested = append(nested, x)
+		}
+	}
+	if len(nested) > 0 && rapid.IntRange(0, 2).Draw(t, "packed-nested") > 0 {
+		ts = nested
 	}
 	tg := ts[rapid.IntRange(0, len(ts)-1).Draw(t, "packed-target")]
 	var width int
